@@ -211,6 +211,19 @@ var c13Templates = []sim.Template{
 		sc = append(sc, act("login", 0, v, "ok"), act("get", 0, -9, "", "route", "/2fa/"+k+"/setup"), act(k+"_setup", 0, -9, "own"))
 		return sc
 	}},
+	{Name: "recovery-code-reuse-on-remove", F: func(s *sim.Sim) []*sim.Action {
+		if len(s.Cfg.TwoFA) == 0 || !s.Cfg.Has("auth") {
+			return nil
+		}
+		k := s.Cfg.TwoFA[s.R.Intn(len(s.Cfg.TwoFA))]
+		v := findAcct(s, func(u *world.User) bool {
+			return (k == "totp" && u.TOTPSecretKey != "") || (k == "sms" && u.SMSPhone != "" && u.TOTPSecretKey == "")
+		})
+		if v < 0 {
+			return nil
+		}
+		return []*sim.Action{act("login", 0, v, "ok"), act(k+"_validate", 0, -9, "recovery"), act(k+"_remove", 0, -9, "recovery_spent"), act(k+"_remove", 0, -9, "recovery_other"), act(k+"_remove", 0, -9, "recovery")}
+	}},
 	{Name: "enrol-code-on-remove-page", F: func(s *sim.Sim) []*sim.Action {
 		if !s.Cfg.Has2FA("sms") || s.Cfg.TwoFAEmail || !s.Cfg.Has("auth") {
 			return nil
